@@ -37,6 +37,7 @@ type dialRec struct {
 	Seq    int
 	Server string
 	Player string
+	By     string // structural id of the goroutine that dialled
 }
 
 func (w *classicWorld) nextSeq() int { w.seq++; return w.seq }
@@ -101,7 +102,7 @@ func newClassic(r *Run, servers []string, mutate func(cfg *config.Config)) *clas
 	}
 	w.p = p
 	for i, name := range servers {
-		b := &backendModel{name: name, addr: simnet.TCP(fmt.Sprintf("10.5.0.%d", i+1), 25565), w: w, Beh: backendBehavior{Compression: -1}}
+		b := &backendModel{index: i, name: name, addr: simnet.TCP(fmt.Sprintf("10.5.0.%d", i+1), 25565), w: w, Beh: backendBehavior{Compression: -1}}
 		w.backends[name] = b
 		w.border = append(w.border, name)
 		if _, err := p.Register(b); err != nil {
